@@ -5,7 +5,7 @@ real-valued finite differences of the real component (encoder validation).
 `ite` is differentiated branch-wise (away from the switching surface); `abs` gives sign.
 """
 from .sym import (
-    ONE, ZERO, TWO, Sym, add, const, cos, div, exp, ite, mul, neg, reachable, sin, SymBool, power, sqrt, S,
+    ONE, ZERO, TWO, Sym, add, const, cos, div, exp, ite, mul, neg, reachable, sin, SymBool, power, sqrt, S, ufn,
 )
 
 
@@ -61,6 +61,14 @@ def diff_all(roots, wrt: Sym, nodes=None):
         elif op == "abs":
             a = n.args[0]
             r = mul(div(n, a), d[a.nid])
+        elif op == "ufn":
+            name, index = n.args[0], n.args[1]
+            fargs = n.args[2:]
+            r = ZERO
+            for c, a in enumerate(fargs):
+                da = d.get(a.nid)
+                if da is not None:
+                    r = add(r, mul(ufn(name + "'", index + (c,), fargs), da))
         elif op == "ite":
             c, a, b = n.args
             r = ite(c, d.get(a.nid, ZERO), d.get(b.nid, ZERO))
